@@ -124,10 +124,31 @@ def run(chk: core.Check, replay=None) -> None:
                               "ok": all(int(r.flag) & 7 for r in added)})
                 if added:
                     chk.stratum("extra_added_event_rows")
+                # (4) an event detected in the very iteration that crosses a record distance: the record step is aimed just
+                #     short of each event row (0.3 advances before the point that detected it); the plain row interpolated at
+                #     that distance must still be in the extra-data output, which flags it as the event as well
+                if not over.get("step_ft"):
+                    for ev_row in [r for r in b["rows"] if int(r.flag) & 7 and not int(r.flag) & 8][:3]:
+                        xe = ev_row.distance.raw_value / 12.0
+                        adv = (ms / 2.0) * 0.3
+                        if xe - adv <= ms:
+                            continue
+                        al = copy.deepcopy(base)
+                        al.update({"step_ft": xe - adv, "range_ft": xe + 2 * ms, "extra": False})
+                        pa = fire(al)
+                        al2 = dict(copy.deepcopy(al), extra=True)
+                        pb_ = fire(al2)
+                        fa = [scen.row_fp(r)[:-1] for r in pa["rows"]]
+                        fb = {scen.row_fp(r)[:-1] for r in pb_["rows"]}
+                        both = [r for r in pb_["rows"] if int(r.flag) & 7 and int(r.flag) & 8]
+                        pairs.append({"tid": pb_["tid"], "ev": "Pair", "clause": "C11.PlainRowMissingInExtra", "ok": all(x in fb for x in fa)})
+                        chk.count(1, ("aligned", pb_["tid"]))
+                        if both:
+                            chk.stratum("event_on_a_recording_step")
     loopsuite.validate(chk, "C11", outs, pairs)
     chk.sample({"base": outs[0]["sc"], "variant": outs[1]["sc"], "pair_lines": pairs[:2]})
     chk.sample({"tlc_behaviour": {k: v for k, v in behs[0].items() if k != "consts"}})
-    chk.require_strata(["variant_time_step_below_dt", "variant_step_below_max_step", "variant_step_eq_max_step", "variant_shorter", "variant_coarser", "variant_finer", "variant_extra", "variant_timed", "extra_added_event_rows"])
+    chk.require_strata(["variant_time_step_below_dt", "variant_step_below_max_step", "variant_step_eq_max_step", "variant_shorter", "variant_coarser", "variant_finer", "variant_extra", "variant_timed", "extra_added_event_rows", "event_on_a_recording_step"])
     chk.exhaustive = False
     chk.rule.append("design: Integrator.tla twin recorders (rows lie on the polyline of iteration points that no recorder influences); "
                     "spec->code: row emission rule of TLC behaviours on the real filter; code->spec: seeded real shots, each fired with "
